@@ -346,7 +346,7 @@ WinAsg(N) ==
   \cup {<<"w", "_size", "", 0>>}
   \cup (IF Level >= 2 THEN {<<"m", "mean", c, 0>> : c \in N} ELSE {})
 OrdAsg(N) ==
-  {<<"w", fn, c, 0>> : fn \in {"cumsum", "cummax", "cummin"}, c \in N}
+  {<<"w", fn, c, 0>> : fn \in {"cumsum", "cummax", "cummin"} \cup (IF Level >= 2 THEN PandasOnlyFns ELSE {}), c \in N}
   \cup {<<"w", "shift", c, n>> : c \in N, n \in (IF Level = 1 THEN {1} ELSE {1, 2, 0 - 1})}
   \cup {<<"w", "_row_number", "", 0>>}
 WExtendSteps(cols) ==
